@@ -9,7 +9,7 @@ from contracts.lib import *  # noqa
 
 LEVEL = "other"
 MANIFEST_ENTRY = {
-    "text": "Server selection decision: the statements of Tahoe2ServerSelector.get_shareholders after its query loop (extracted mechanically from the real AST on every run) are verified as a Hoare triple from ANY state the loop may leave: the method returns (use_trackers, preexisting shares) only if servers_of_happiness(merge_servers(preexisting, use_trackers)) >= min_happiness, otherwise _failed() runs; _failed aborts every tracker in use_trackers and raises UploadUnhappinessError; ServerTracker.abort aborts every allocated bucket writer and forgets it. CHKUploader.locate_all_shareholders hands (total, needed, happy) of the encoder to the selector in the right parameters. During the push: every landlord operation of the Encoder (put_header, put_block, put_crypttext_hashes, put_block_hashes, put_share_hashes, put_uri_extension, close) has an errback that calls _remove_shareholder with THAT landlord's share id, and _remove_shareholder aborts and forgets the landlord, recomputes servers_of_happiness over the remaining servermap and raises UploadUnhappinessError exactly when it is below min_happiness.",
+    "text": "Server selection decision: the statements of Tahoe2ServerSelector.get_shareholders after its query loop (extracted mechanically from the real AST on every run) are verified as a Hoare triple from ANY state the loop may leave: the method returns (use_trackers, preexisting shares) only if servers_of_happiness(merge_servers(preexisting, use_trackers)) >= min_happiness, otherwise _failed() runs; _failed aborts every tracker in use_trackers and raises UploadUnhappinessError; ServerTracker.abort aborts every allocated bucket writer and forgets it. CHKUploader.locate_all_shareholders hands (total, needed, happy) of the encoder to the selector in the right parameters. During the push: every landlord operation of the Encoder (put_header, put_block, put_crypttext_hashes, put_block_hashes, put_share_hashes, put_uri_extension, close) has an errback that calls _remove_shareholder with THAT landlord's share id, and _remove_shareholder aborts and forgets the landlord, recomputes servers_of_happiness over the remaining servermap and raises UploadUnhappinessError exactly when it is below min_happiness. A share becomes visible only when complete: WriteBucketProxy.close sends `close` to the server only after the last queued write succeeded, and passes a write failure on instead. The reported share map (CHKUploader._encrypted_done) lists exactly the shares the encoder reports as placed, each on its tracker's server. The happiness value itself is the real servers_of_happiness, whose bounded run-time contract (C08: equals a maximum matching on every relation up to 4x4) is re-run as part of this check.",
     "note": "servers_of_happiness / merge_servers are callee contracts (C07/C08); Deferred scheduling is modelled by a chain interpreter (callbacks on success, errbacks on failure). The query loop itself (which servers are asked, time-outs, read-only servers) and the storage-server side of abort (C22: aborted buckets leave no visible share) are outside these contracts. Bounded: 1..3 landlords/trackers.",
     "technique": "contract-based deductive verification (pyvc VCs + z3) with callee contracts, a Deferred-chain model and a mechanically extracted code segment; landlord counts bounded",
 }
@@ -348,5 +348,109 @@ class RemoveShareholder(Spec):
         return [("canary", Z(a["h"]) > Z(a["min_happiness"]))]
 
 
+class EncryptedDone(Spec):
+    """CHKUploader._encrypted_done: the reported share map lists exactly the shares the encoder says were placed (a share
+    whose holder was dropped during the push is not reported), each on the server its tracker names"""
+    file = UP
+    qualname = "CHKUploader._encrypted_done"
+    level = "B"
+    bound = "4 allocated share numbers (0..3), every subset of them actually placed"
+    cross_check = 0
+    raises = ()
+    canary_case = {"placed": (0, 2)}
+
+    def inputs(self):
+        return {"placed": ChoiceK([()])}
+
+    def all_cases(self):
+        import itertools
+        return [{"placed": c} for r in range(5) for c in itertools.combinations((0, 1, 2, 3), r)]
+
+    def config(self):
+        me = self
+        return {"overrides": {"time.time": lambda I, a, kw: 0, "upload.UploadResults": lambda I, a, kw: stub("results", kw=dict(kw)),
+                              "PrefixingLogMixin.log": noop, "CHKUploader.log": noop}}
+
+    def run(self, I, a):
+        servers = {i: "server-%d" % i for i in range(4)}
+        trackers = {i: stub("tracker%d" % i, get_server=(lambda I_, a_, k_, i=i: servers[i])) for i in range(4)}
+        enc = stub("encoder", get_shares_placed=lambda I_, a_, k_: set(a["placed"]), get_times=lambda I_, a_, k_: {}, file_size=100,
+                   get_uri_extension_data=lambda I_, a_, k_: {}, get_uri_extension_hash=lambda I_, a_, k_: b"h" * 32)
+        st = stub("status", set_results=noop)
+        up = SObj(self.module().CHKUploader, {"_encoder": enc, "_server_trackers": trackers, "_started": 0, "_storage_index_elapsed": 0, "_server_selection_elapsed": 0,
+                                             "_count_preexisting_shares": 0, "_upload_status": st})
+        vcap = stub("verifycap", to_string=lambda I_, a_, k_: b"URI:CHK-Verifier:x")
+        return I.call_value(self.target(I), [up, vcap], {})
+
+    def ensures(self, I, a, out):
+        from pyvc.models_ext import unwrap_key
+        kw = out.value.fields["kw"]
+        sm = kw["sharemap"]
+        data = sm.fields.get("__dictdata__", {}) if isinstance(sm, SObj) else dict(sm)
+        got = {unwrap_key(k): set(unwrap_key(x) for x in v) for k, v in data.items()}
+        want = {i: {"server-%d" % i} for i in a["placed"]}
+        return [("only-shares-that-were-really-placed-are-reported-each-on-its-own-server", z3.BoolVal(got == want)),
+                ("the-count-of-pushed-shares-is-the-number-placed", z3.BoolVal(kw["pushed_shares"] == len(a["placed"])))]
+
+    def canary(self, I, a, out):
+        return [("canary", z3.BoolVal(len(out.value.fields["kw"]["sharemap"].fields.get("__dictdata__", {})) == 4))]
+
+
+class BucketClose(Spec):
+    """WriteBucketProxy.close: the remote bucket is closed (made visible to readers) only after the last queued write
+    succeeded; if that write fails the failure is passed on and `close` is never sent"""
+    file = "allmydata/immutable/layout.py"
+    qualname = "WriteBucketProxy.close"
+    cross_check = 0
+    raises = ()
+    canary_case = {"queued": True, "write_ok": True}
+
+    def inputs(self):
+        return {"queued": ChoiceK([False, True]), "write_ok": ChoiceK([False, True])}
+
+    def all_cases(self):
+        return [{"queued": q, "write_ok": w} for q in (False, True) for w in (False, True) if q or w]
+
+    def run(self, I, a):
+        from pyvc.models_tahoe import DStub
+        self._remote = []
+        self._wd = DStub("pending")
+
+        def call_remote(I_, a_, k_):
+            self._remote.append(a_[0])
+            return self._wd if a_[0] == "write" else DStub("succeeded", None)
+        rref = stub("rref", callRemote=call_remote)
+        buf = stub("write_buffer", get_total_bytes=lambda I_, a_, k_: 500, get_queued_bytes=lambda I_, a_, k_: (10 if a["queued"] else 0), flush=lambda I_, a_, k_: (490, b"x" * 10))
+        w = SObj(self.module().WriteBucketProxy, {"_rref": rref, "_write_buffer": buf, "_offsets": {"uri_extension": 400}, "fieldsize": 4, "_uri_extension_size": 96})
+        d = I.call_value(self.target(I), [w], {})
+        res = d
+        if a["queued"]:
+            self._fail = failure_stub(RuntimeError, "disk full")
+            res, _ = fire_chain(I, self._wd, None if a["write_ok"] else self._fail)
+        elif isinstance(d, DStub) and d.state == "succeeded":
+            res, _ = fire_chain(I, d, d.value)
+        return res
+
+    def ensures(self, I, a, out):
+        closed = "close" in self._remote
+        if a["queued"] and not a["write_ok"]:
+            return [("a-share-whose-last-write-failed-is-never-closed-into-place", z3.BoolVal(not closed)),
+                    ("the-write-failure-is-passed-on", z3.BoolVal(is_failure(out.value)))]
+        return [("a-completely-written-share-is-closed", z3.BoolVal(closed and self._remote.index("close") == len(self._remote) - 1)),
+                ("queued-bytes-are-written-before-closing", z3.BoolVal(("write" in self._remote) == a["queued"]))]
+
+    def canary(self, I, a, out):
+        return [("canary", z3.BoolVal("close" not in self._remote))]
+
+
+def extra_checks(rep, tier):
+    # the happiness value the decision uses is the real servers_of_happiness: its bounded run-time contract (C08) is re-run here
+    from contracts import C08
+    n0 = len(rep.violations)
+    C08.extra_checks(rep, tier)
+    for v in rep.violations[n0:]:
+        v["property"] = "C06"
+
+
 def contracts(tier):
-    return [SelectorDecision(), SelectorFailed(), LocateAllShareholders(), EncoderErrorWiring(), RemoveShareholder()]
+    return [SelectorDecision(), SelectorFailed(), LocateAllShareholders(), EncoderErrorWiring(), RemoveShareholder(), EncryptedDone(), BucketClose()]
